@@ -181,6 +181,17 @@ class H2Server:
         elif isinstance(f, hf.DataFrame):
             st = self.streams.get(sid)
             flen = f.flow_controlled_length
+            if self.goaway_sent is not None and sid > self.goaway_sent["last"]:
+                # RFC 7540 6.8: the sender of GOAWAY ignores frames on streams above last-stream-id
+                if st is not None:
+                    st["ex"]["body"] += f.data
+                    st["ex"]["data_frames"].append(len(f.data))
+                    if "END_STREAM" in f.flags:
+                        st["ex"]["end_stream_count"] += 1
+                        st["ex"]["complete"] = True
+                        st["ex"]["body"] = bytes(st["ex"]["body"])
+                        st["closed_in"] = True
+                return
             if flen > self.lenient_frame_size and flen > self.acked[S_MAX_FRAME_SIZE]:
                 self.violations.append(("frame-size", f"DATA frame of {flen} bytes on stream {sid} exceeds MAX_FRAME_SIZE "
                                         f"{max(self.lenient_frame_size, self.acked[S_MAX_FRAME_SIZE])}"))
@@ -274,6 +285,16 @@ class H2Server:
         self.max_open_seen = max(self.max_open_seen, open_before + 1)
         self._count("headers")
         plan = self.net.plan(token)
+        if ex["refused"] or (self.goaway_sent is not None and sid > self.goaway_sent["last"]):
+            ex["refused"] = True
+            if "END_STREAM" in flags:
+                ex["end_stream_count"] += 1
+                ex["complete"] = True
+                ex["body"] = bytes(ex["body"])
+                self.streams[sid]["closed_in"] = True
+            self.streams[sid]["closed_out"] = True
+            self.streams[sid]["responded"] = True
+            return
         if "END_STREAM" in flags:
             self._request_complete(sid)
         elif plan.get("respond_at", self.cfg["respond_at"]) == "head":
